@@ -19,6 +19,7 @@ import BaoProofs.Lemmas.Offsets
   depend on the flavour.
 * `encodeRangesValidated_flavour`, `encodeRanges_flavour`, `encodeRanges_eq_validated_of_ok`,
   `traverseRangesValidated_spec`: the same facts for the entry points.
+* `validateRec_flavour`, `validRanges_flavour`, `validOutboardRanges_flavour`: the validators.
 -/
 
 namespace Bao.DecSim
@@ -851,5 +852,28 @@ theorem flatMap_flatten_frame (hf : HashFns H) (n : Nat) (mid : List (Item H)) (
     rcases hl with rfl | ⟨e, rfl⟩ <;> rfl
   have hsz : EncodedItem.flatten hf (.size n) = [] := rfl
   simp [List.flatMap_cons, List.flatMap_append, flatMap_flatten_map, this, hsz]
+
+/-! ## validators -/
+
+theorem validateRec_flavour (hf : HashFns H) [BEq H] (withData : Bool) (ob : Store H)
+    (data : List UInt8) (filled : Nat)
+    (h : ∀ node, ob.load hf .sync node = ob.load hf .fsm node)
+    (fuel : Nat) (ph : H) (sh : Nat) (isRoot : Bool) (rs : Ranges) :
+    validateRec hf .sync withData ob data filled fuel ph sh isRoot rs
+      = validateRec hf .fsm withData ob data filled fuel ph sh isRoot rs := by
+  induction fuel generalizing ph sh isRoot rs with
+  | zero => rfl
+  | succ n ih =>
+    simp only [validateRec, h, ih]
+
+theorem validRanges_flavour (hf : HashFns H) [BEq H] (ob : Store H) (data : List UInt8)
+    (ranges : Ranges) (h : ∀ node, ob.load hf .sync node = ob.load hf .fsm node) :
+    validRanges hf .sync ob data ranges = validRanges hf .fsm ob data ranges := by
+  simp only [validRanges, validateRec_flavour hf true ob data _ h]
+
+theorem validOutboardRanges_flavour (hf : HashFns H) [BEq H] (ob : Store H)
+    (ranges : Ranges) (h : ∀ node, ob.load hf .sync node = ob.load hf .fsm node) :
+    validOutboardRanges hf .sync ob ranges = validOutboardRanges hf .fsm ob ranges := by
+  simp only [validOutboardRanges, validateRec_flavour hf false ob [] _ h]
 
 end Bao.DecSim
